@@ -99,7 +99,10 @@ def load(R):
         # (or the one this object already held)
         "implies(self.explicit_version is None and not old(LOCKED(self)), FRESH(self) or ("
         "ghost('gen') == old(ghost('gen')) and CACHE_SAME() and old(NAME(self) in ghost('vcache')) and old(ghost('vcache')[NAME(self)].as_of_generation) == old(ghost('gen')) "
-        "and old(NO_RULE_CHANGED(self)) and self._calculated_version == (old(self._calculated_version) if old(self._calculated_version) is not None else old(ghost('vcache')[NAME(self)].version))))",
+        # (from the property: the cached version may be kept only by an object that collected the rules it has just re-validated -- an object that never
+        # computed its version has an empty rule list and must compute: the entry under its NAME may belong to another object, e.g. to the definition
+        # that existed before an edit + reload)
+        "and old(NO_RULE_CHANGED(self)) and old(self._calculated_version) is not None and self._calculated_version == old(self._calculated_version)))",
         # a rule that reports a change while the entry is current bumps the generation (so every other function re-validates) and forces recomputation
         "implies(self.explicit_version is None and not old(LOCKED(self)) and old(NAME(self) in ghost('vcache')) and old(ghost('vcache')[NAME(self)].as_of_generation) == old(ghost('gen')) and old(SOME_RULE_CHANGED(self)), "
         "ghost('gen') > old(ghost('gen')) and FRESH(self))",
